@@ -34,6 +34,7 @@ inductive Err where
   | isSetup        -- EupsException "Product ... is already setup; specify force to proceed"
   | noPermission   -- EupsException "You do not have permission to undeclare products from ..."
   | tagNotFound    -- `eups remove -t TAG product`: "Failed to lookup tag TAG for product ..." (exit status 2)
+  | eof            -- `eups remove -i`: the answers ran out (`input` raises EOFError) — after earlier products are gone
 deriving Repr, DecidableEq
 
 inductive Outcome where
@@ -74,7 +75,7 @@ def directDeps (db : Db) (p : Prod) (expand : Bool) : Except Err (List Prod) :=
   if expand then
     if db.tableMissing p then .error .tableError
     else match depsOf db db.fuel [] p false 0 St.empty with
-      | none => .error .outOfFuel         -- only in an unsetup branch
+      | none => .error .outOfFuel         -- never (`directDeps_not_fuel`); before the D32 repair: an unsetup line inside a cycle
       | some r => .ok (p :: r.1.map (·.prod))
   else .ok [p]
 
@@ -149,6 +150,113 @@ def removeWith (s : State) (uses : UsesOutcome) (name ver : Str) (recursive chec
 def remove (s : State) (name ver : Str) (recursive check force : Bool) (defaultName : Option Str) :
     Outcome × State × List Prod :=
   removeWith s (usesInfo s.db s.db.fuel) name ver recursive check force defaultName
+
+/-! ### `eups remove -i`: the prompts of the destruction loop -/
+
+/-- one line typed at the prompt `Remove <product> <version>: (ynq!) [<default>]` -/
+inductive Ans where
+  | y | n | q | bang | empty | other
+deriving Repr, DecidableEq
+
+/-- `default_yn`: the last of `y`, `n`, `!` that was answered (`y` at the start) -/
+inductive Dflt where
+  | y | n | bang
+deriving Repr, DecidableEq
+
+inductive Decision where
+  | remove | skip | quit | eof
+deriving Repr, DecidableEq
+
+/-- the prompt loop for one product: `yn = default_yn; while yn != "!": yn = input(...)`; an empty line is the default, `y`,
+`n`, `!` become the default and end the loop, `q` returns from `remove`, anything else asks again.  After a `!` nothing is
+asked any more. -/
+def ask : Dflt → List Ans → Decision × Dflt × List Ans
+  | .bang, as => (.remove, .bang, as)
+  | d, [] => (.eof, d, [])
+  | d, a :: as =>
+    match a with
+    | .y => (.remove, .y, as)
+    | .n => (.skip, .n, as)
+    | .bang => (.remove, .bang, as)
+    | .q => (.quit, d, as)
+    | .empty => (if d == .n then .skip else .remove, d, as)
+    | .other => ask d as
+
+/-- the destruction loop with `interactive=True`: every product (each once) is asked about first; `n` leaves it alone —
+and ends the command when it is the requested product `top` itself (repair of D74: the others were collected, and
+excused by the in-use check, because the requested product was to go) —, `q` ends the command — the products removed so
+far stay removed —; third component: the products actually removed -/
+def destroyLoopI (force : Bool) (top : Prod) : State → List Prod → Dflt → List Ans → Outcome × State × List Prod
+  | s, [], _, _ => (.ok, s, [])
+  | s, p :: ps, d, as =>
+    match ask d as with
+    | (.eof, _, _) => (.failed .eof, s, [])
+    | (.quit, _, _) => (.ok, s, [])
+    | (.skip, d', as') => if p == top then (.ok, s, []) else destroyLoopI force top s ps d' as'
+    | (.remove, d', as') =>
+      if !s.dbWritable then (.failed .noPermission, s, [])
+      else if s.isSetup p && !force then (.failed .isSetup, s, [])
+      else
+        let r := destroyLoopI force top (destroy s [p]) ps d' as'
+        (r.1, r.2.1, p :: r.2.2)
+
+/-- pinned (before the repair of D74): `n` for the requested product only skipped it -/
+def destroyLoopIPinned (force : Bool) : State → List Prod → Dflt → List Ans → Outcome × State × List Prod
+  | s, [], _, _ => (.ok, s, [])
+  | s, p :: ps, d, as =>
+    match ask d as with
+    | (.eof, _, _) => (.failed .eof, s, [])
+    | (.quit, _, _) => (.ok, s, [])
+    | (.skip, d', as') => destroyLoopIPinned force s ps d' as'
+    | (.remove, d', as') =>
+      if !s.dbWritable then (.failed .noPermission, s, [])
+      else if s.isSetup p && !force then (.failed .isSetup, s, [])
+      else
+        let r := destroyLoopIPinned force (destroy s [p]) ps d' as'
+        (r.1, r.2.1, p :: r.2.2)
+
+/-- `Eups.remove(..., interactive=True)`: collection, in-use check and the set-up pre-check as without `-i`; then the
+loop with its prompts -/
+def removeWithI (s : State) (uses : UsesOutcome) (name ver : Str) (recursive check force : Bool)
+    (defaultName : Option Str) (answers : List Ans) : Outcome × State × List Prod :=
+  let go (sb : Option SetupBy) : Outcome × State × List Prod :=
+    match collect s.db sb force defaultName (name, ver) s.removeFuel name (some ver) recursive [] with
+    | .error e => (.failed e, s, [])
+    | .ok (l, _) =>
+      if !force && (uniqProds l).any s.isSetup then (.failed .isSetup, s, [])
+      else destroyLoopI force ⟨name, some ver, true⟩ s (uniqProds l) .y answers
+  if check then
+    match uses with
+    | .outOfFuel => (.failed .outOfFuel, s, [])
+    | .cycle => (.failed .cycle, s, [])
+    | .ok sb => go (some sb)
+  else go none
+
+/-- pinned `Eups.remove(..., interactive=True)` (before the repair of D74) -/
+def removeWithIPinned (s : State) (uses : UsesOutcome) (name ver : Str) (recursive check force : Bool)
+    (defaultName : Option Str) (answers : List Ans) : Outcome × State × List Prod :=
+  let go (sb : Option SetupBy) : Outcome × State × List Prod :=
+    match collect s.db sb force defaultName (name, ver) s.removeFuel name (some ver) recursive [] with
+    | .error e => (.failed e, s, [])
+    | .ok (l, _) =>
+      if !force && (uniqProds l).any s.isSetup then (.failed .isSetup, s, [])
+      else destroyLoopIPinned force s (uniqProds l) .y answers
+  if check then
+    match uses with
+    | .outOfFuel => (.failed .outOfFuel, s, [])
+    | .cycle => (.failed .cycle, s, [])
+    | .ok sb => go (some sb)
+  else go none
+
+/-! ### histories on one `Eups` object: `declare` between two removals -/
+
+/-- `Eups.declare(name, version, productDir)` of a product not declared so far, as far as `remove` is concerned: the
+declaration with the setup lines of its table, its directory, and — for the first version of a product — the tag
+`current` (`declare` makes the first version current on its own).  The database proper is C06's model. -/
+def declare (s : State) (d : Decl) : State :=
+  { s with decls := s.decls ++ [d], dirs := s.dirs ++ [(d.name, d.ver)],
+           tags := if s.decls.any (fun x => x.name == d.name) then s.tags
+                   else s.tags ++ [(d.name, currentTag, d.ver)] }
 
 /-! ### `RemoveCmd.execute` (python/eups/cmd.py): the `-t TAG` forms of the command line -/
 
